@@ -11,13 +11,17 @@ Supports the tie only.
 namespace GoPlugin.Oracle.C08
 open GoPlugin Wire GrpcMux
 
-def internalEvents (ids : List Nat) : List Event :=
-  [.runKnock, .kRecv, .kAcceptKnock, .kAck, .dialAck, .dialOpen, .xAccept] ++ ids.map .lAccept
+/-- `late`: the listeners are served only some time after `Accept` returned, so a stream reaches the main accept loop
+while its listener is not parked in `Accept()` (`xAcceptUnparked` is tried first; with a blocking hand-off it is never
+enabled and the stream is delivered by `xAccept` once the listener arrives) -/
+def internalEvents (ids : List Nat) (late : Bool) : List Event :=
+  [.runKnock, .kRecv, .kAcceptKnock, .kAck, .dialAck, .dialOpen] ++ (if late then [.xAcceptUnparked] else []) ++ [.xAccept] ++
+    ids.map .lAccept
 
-def internalStep (P : Params) (ids : List Nat) (s : State) : Option State :=
-  (internalEvents ids).findSome? (fun e => step P s e)
+def internalStep (P : Params) (ids : List Nat × Bool) (s : State) : Option State :=
+  (internalEvents ids.1 ids.2).findSome? (fun e => step P s e)
 
-def quiesce (P : Params) (ids : List Nat) : Nat → State → State
+def quiesce (P : Params) (ids : List Nat × Bool) : Nat → State → State
   | 0, s => s
   | fuel+1, s => match internalStep P ids s with
     | some x => quiesce P ids fuel x
@@ -25,7 +29,7 @@ def quiesce (P : Params) (ids : List Nat) : Nat → State → State
 
 inductive Op | dial (id : Nat) | accept (id : Nat) | main
 
-def applyOps (P : Params) (ids : List Nat) (delayed : Bool) (s : State) : List Op → State
+def applyOps (P : Params) (ids : List Nat × Bool) (delayed : Bool) (s : State) : List Op → State
   | [] => s
   | op :: rest =>
     let s' := match op with
@@ -62,7 +66,7 @@ def run (_tag : String) (kv : KV) : String :=
     let ids := dedup (ops.filterMap fun o => match o with | .accept id => some id | .dial id => some id | .main => none)
     -- 'm' in a harness case is a health check on the established main connection, not a new stream
     let ops' := ops.filter fun o => match o with | .main => false | _ => true
-    let s := applyOps P ids (kv.getD "delay" "0" != "0") (init role) ops'
+    let s := applyOps P (ids, kv.getD "late" "0" != "0") (kv.getD "delay" "0" != "0") (init role) ops'
     s!"est={String.intercalate "," (ids.map (estOf s))} main={if s.mainDead then "dead" else "alive"}"
   | none => "bad-case"
 
